@@ -216,7 +216,86 @@ def exec_fallback(case):
     return {"nontrivial": bad is not None, "classes": ["bad:" + case["bad"], "api:" + case["api"]]}
 
 
+@st.composite
+def modes_spec(draw):
+    d = draw(st.integers(1, 4))
+    return {"d": d, "K": draw(st.integers(1, 3)), "per": draw(st.integers(4 * d + 4, 60)), "seed": draw(st.integers(0, 2**31 - 1)),
+            "api": draw(st.sampled_from(["particles", "global", "ctor"])),
+            "log_s": [draw(st.one_of(st.floats(-6.0, 6.0), st.just(0.0))) for _ in range(d)],
+            "shift": [draw(st.one_of(st.floats(-1e3, 1e3), st.just(0.0))) for _ in range(d)],
+            "perm_seed": draw(st.integers(0, 10**6))}
+
+
+def _unit(C):
+    sd = np.sqrt(np.diag(C))
+    return C / np.outer(sd, sd), sd
+
+
+def exec_modes(case):
+    """what reaches the kernel: ModeStatistics must describe ONE scale matrix per mode - its Cholesky factor and its inverse belong to the
+    covariance it exposes - and the whole object is equivariant under per-coordinate scaling, translation and permutation of coordinates"""
+    from tempest.modes import ModeStatistics
+
+    rng = np.random.default_rng(case["seed"])
+    d, K, per = case["d"], case["K"], case["per"]
+    u = np.concatenate([rng.normal(0.2 + 0.3 * k, 0.03 * (1 + k), size=(per, d)) * (1 + np.arange(d)) for k in range(K)])
+    labels = np.repeat(np.arange(K), per)
+    w = rng.random(len(u)) + 0.5
+
+    def build(x):
+        np.random.seed(case["seed"] % 2**31)
+        if case["api"] == "particles":
+            return lib_call(ModeStatistics.from_particles, x, w, labels, what="ModeStatistics.from_particles")
+        if case["api"] == "global":
+            return lib_call(ModeStatistics.from_global, x, w, what="ModeStatistics.from_global")
+        mk = [x[labels == k] for k in range(K)]
+        return lib_call(ModeStatistics, np.array([m.mean(0) for m in mk]), np.array([np.atleast_2d(np.cov(m.T)) for m in mk]),
+                        np.full(K, 5.0), what="ModeStatistics(...)")
+
+    def consistent(ms, what):
+        for k in range(ms.K):
+            C = np.asarray(ms.covariances[k], dtype=float)
+            Cu, sd = _unit(C)
+            L = np.asarray(ms.chol_covariances[k], dtype=float) / sd[:, None]
+            P = np.asarray(ms.inv_covariances[k], dtype=float) * np.outer(sd, sd)
+            cond = float(np.linalg.cond(Cu))
+            if not np.allclose(L @ L.T, Cu, rtol=0, atol=1e-9 * cond):
+                raise Violation(f"{what}: mode {k}: the Cholesky factor handed to the kernel is not a factor of the covariance it exposes "
+                                f"(max deviation {np.max(np.abs(L @ L.T - Cu)):.3g} in correlation units)", sig={"kind": "chol-not-of-covariance"})
+            if not np.allclose(P @ Cu, np.eye(len(Cu)), rtol=0, atol=1e-8 * cond):
+                raise Violation(f"{what}: mode {k}: the inverse handed to the kernel is not the inverse of the covariance it exposes "
+                                f"(max deviation {np.max(np.abs(P @ Cu - np.eye(len(Cu)))):.3g})", sig={"kind": "inverse-not-of-covariance"})
+
+    ms = build(u)
+    consistent(ms, f"ModeStatistics via {case['api']}")
+    sc = 10.0 ** np.array(case["log_s"], dtype=float)
+    sh = np.array(case["shift"], dtype=float)
+    perm = np.random.default_rng(case["perm_seed"]).permutation(d)
+    u2 = (u * sc + sh)[:, perm]
+    ms2 = build(u2)
+    consistent(ms2, f"ModeStatistics via {case['api']} (transformed data)")
+    loss = float(np.max(np.abs(sh) / (np.std(u * sc, axis=0) + 1e-300)))  # digits the translation costs the inputs
+    tol = 1e-9 + 1e-13 * loss
+    for k in range(ms.K):
+        m_exp = (np.asarray(ms.means[k]) * sc + sh)[perm]
+        C_exp = (np.asarray(ms.covariances[k]) * np.outer(sc, sc))[np.ix_(perm, perm)]
+        sd = np.sqrt(np.diag(C_exp))
+        em = float(np.max(np.abs(np.asarray(ms2.means[k]) - m_exp) / sd))
+        ec = float(np.max(np.abs(np.asarray(ms2.covariances[k]) - C_exp) / np.outer(sd, sd)))
+        ei = float(np.max(np.abs(np.asarray(ms2.inv_covariances[k]) * np.outer(sd, sd) - (np.asarray(ms.inv_covariances[k]) / np.outer(sc, sc))[np.ix_(perm, perm)] * np.outer(sd, sd))))
+        cond = float(np.linalg.cond(_unit(C_exp)[0]))
+        if em > tol * 10 or ec > tol * 10 or ei > tol * 100 * cond * cond:
+            raise Violation(f"ModeStatistics via {case['api']} is not equivariant under per-coordinate scaling {sc.tolist()}, translation and "
+                            f"permutation: mode {k}: mean err {em:.3g}, covariance err {ec:.3g}, inverse err {ei:.3g} (standardised units)",
+                            sig={"kind": "not-equivariant"})
+        if float(ms.degrees_of_freedom[k]) != float(ms2.degrees_of_freedom[k]):
+            raise Violation("degrees of freedom change under an affine change of coordinates", sig={"kind": "not-equivariant"})
+    spread = float(np.max(case["log_s"]) - np.min(case["log_s"])) if d > 1 else 0.0
+    return {"nontrivial": spread > 2, "classes": ["api:" + case["api"], "scale-spread>6" if spread > 6 else "scale-spread<=6", "K=%d" % K]}
+
+
 CHECKS = [
+    Check("modes", modes_spec, exec_modes, n={"quick": 800, "thorough": 12000}, shards={"quick": 16, "thorough": 16}),
     Check("fit_invariants", data_spec, exec_fit, n={"quick": 4800, "thorough": 60000}, shards={"quick": 16, "thorough": 16}),
     Check("recovery", recov_spec, exec_recovery, n={"quick": 16, "thorough": 200}, shards={"quick": 8, "thorough": 16},
           shrink={"quick": False, "thorough": False}),
